@@ -128,6 +128,11 @@ def dstep (s : DState) (toks : List String) : DState × List String :=
         (s, [s!"M={showRegion c.M} C={showRegion c.C} R={showRegion c.R} d={c.dx},{c.dy}"])
       | none => (s, ["bad-op"])
     | none => (s, ["bad-op"])
+  | ["settled", n] =>
+    -- pure oracle marker (the harness compares the whole decoded picture here); no state change
+    match n.toNat? with
+    | some n => if (getClient s n).isSome then (s, ["ok"]) else (s, ["bad-op"])
+    | none => (s, ["bad-op"])
   | _ => (s, ["bad-op"])
 
 def main : IO Unit := runDriver ({} : DState) dstep
